@@ -143,9 +143,21 @@ class UDPMessageDeserializer:
         # Already parsed if we don't have a raw body
         if not raw_body:
             return
+        deserializer = msg.deserializer
         msg.raw_body = None
         msg.deserializer = None
 
+        try:
+            self._parse_message_body(msg, raw_body)
+        except:
+            # Couldn't parse the body, leave the message as it was so that it
+            # can still be passed through as-is rather than as a partial parse.
+            msg.blocks = {}
+            msg.raw_body = raw_body
+            msg.deserializer = deserializer
+            raise
+
+    def _parse_message_body(self, msg: Message, raw_body: bytes):
         if msg.zerocoded:
             raw_body = self.zero_code_expand(raw_body)
 
